@@ -346,7 +346,7 @@ def run(ctx):
         return mc
 
     seed = str(ctx.seed)
-    ntraces = ctx.pick(1200, 16000)
+    ntraces = ctx.pick(1200, 12000)
     simw = 8 if not dev_workers else min(8, dev_workers)
     jobs = {
         "harness": lambda: ctx.build_harness("src", HARNESS_FILES, shared=["chars"]),
